@@ -89,7 +89,7 @@ func genCase(rt *rapid.T) tcase {
 	for i := 0; i < nm; i++ {
 		c.Muts = append(c.Muts, genMutation(rt, nseg))
 	}
-	c.Run.Unwrap.Mode = rapid.SampledFrom([]int{unwrapGood, unwrapGood, unwrapGood, unwrapGood, unwrapOtherKey, unwrapBadLen, unwrapError}).Draw(rt, "unwrap")
+	c.Run.Unwrap.Mode = rapid.SampledFrom([]int{unwrapGood, unwrapGood, unwrapGood, unwrapGood, unwrapOtherKey, unwrapBadLen, unwrapError, unwrapErrZeroKey, unwrapErrOtherKey}).Draw(rt, "unwrap")
 	if c.Run.Unwrap.Mode == unwrapBadLen {
 		c.Run.Unwrap.Len = rapid.SampledFrom([]int{0, 16, 31, 33, 64}).Draw(rt, "unwrapLen")
 	}
@@ -494,7 +494,7 @@ func TestPinnedZeroKeyForgery(t *testing.T) {
 	for _, cipher := range []int{refenc.CipherAESGCM, refenc.CipherChaCha20} {
 		fm.Cipher = cipher
 		forged := refenc.Encode([]byte("attacker chosen text"), make([]byte, 32), fm, refenc.ManifestStyle{})
-		for _, u := range []unwrapSpec{{Mode: unwrapError}, {Mode: unwrapBadLen, Len: 0}, {Mode: unwrapBadLen, Len: 31}, {Mode: unwrapGood}} {
+		for _, u := range []unwrapSpec{{Mode: unwrapError}, {Mode: unwrapBadLen, Len: 0}, {Mode: unwrapBadLen, Len: 31}, {Mode: unwrapGood}, {Mode: unwrapErrZeroKey}} {
 			r := runSpec{Unwrap: u, FailAt: -1}
 			what, detail, _, _ := judge("pinned zero-key forgery", d, forged, [][]byte{d.header}, r)
 			if what != "" {
